@@ -2,12 +2,11 @@ SPECIFICATION Spec
 CONSTANTS
   Thorough = FALSE
   Emit = TRUE
-  Flip = "Manual"
-  MaxPending = 32
+  N = 3
+  MaxPending = 16
   MaxPages = 1
   MaxChunks = 2
 VIEW View
 CONSTRAINT Bound
-INVARIANTS Inv StepOK AbsInv EmitState
-PROPERTIES AbsRefines
+INVARIANTS Inv Isolation EmitState
 CHECK_DEADLOCK FALSE
